@@ -849,7 +849,9 @@ def gen_round(rng, f, quick=True):
                 top &= (1 << 64) - 1
                 top |= 1 << 63
                 base = (top >> shift << shift) if shift < 64 else 0
-                for low in (half, half - 1 if half > 0 else 0, half + 1, 0, (1 << shift) - 1 if shift <= 64 else 0):
+                lows = [half, half - 1 if half > 0 else 0, half + 1, 0, (1 << shift) - 1 if shift <= 64 else 0,
+                        half | (half >> 1), half >> 1, half | (half >> 2), (half >> 1) | 1, half | (half >> 1) | 1]
+                for low in lows:
                     v = (base | (low & ((1 << min(shift, 64)) - 1))) | (1 << 63)
                     pats.append(v & ((1 << 64) - 1))
         pats.append(rng.getrandbits(64) | (1 << 63))
